@@ -11,6 +11,7 @@
 -/
 import JSV.Proofs.InvPerm5
 import JSV.Proofs.MshTree
+import JSV.Proofs.RefineCheck
 namespace JSV
 namespace Iso
 open Go (ListRel OptRel KeyRel)
@@ -1018,7 +1019,7 @@ theorem preNorm_invisible (n : Node) : NodeSim Eq n (preNorm n) where
     exact keyRel_eq_refl _
 
 theorem get?_map (st : Store) (f : Node → Node) (i : NodeId) : Store.get? (st.map f) i = (Store.get? st i).map f := by
-  simp [Store.get?]
+  simp only [Store.get?, Array.getElem?_map]
 
 /-- rewriting every schema object by an `f` that `evalStep` cannot tell from the identity: same ids, same tables -/
 theorem envSim_map (env : Spec.Env) (st : Store) (f : Node → Node) (hf : ∀ n, NodeSim Eq n (f n)) :
@@ -1441,6 +1442,73 @@ example : Spec.valid exEnv₁ 3 0 (.obj [("a", .str "x")]) = some true := by dec
 example : Spec.valid exEnv₂ 3 3 (.obj [("a", .str "x")]) = some true := by decide
 example : Spec.valid exEnv₁ 3 0 (.obj [("a", .num 1)]) = some false := by decide
 example : Spec.valid exEnv₁ 3 0 (.obj []) = some false := by decide
+
+/-! ### … and `validate_iso` on two resolved environments over these stores -/
+
+def exVEnv₁ : Go.VEnv :=
+  { st := exSt₁, draft := .d2020, reMatch := fun _ _ => false, hash := fun _ => 0,
+    infos := [(0, { base := some 0, resolvedRef := some 2, resolvedDynamicRef := some 2, dynamicRefAnchor := "d",
+                    anchors := [("d", ⟨2, true⟩)] }),
+              (1, { base := some 0 }), (2, { base := some 0 })] }
+
+def exVEnv₂ : Go.VEnv :=
+  { st := exSt₂, draft := .d2020, reMatch := fun _ _ => false, hash := fun _ => 0,
+    infos := [(3, { base := some 3, resolvedRef := some 0, resolvedDynamicRef := some 0, dynamicRefAnchor := "d",
+                    anchors := [("d", ⟨0, true⟩)] }),
+              (2, { base := some 3 }), (1, { base := some 3 }), (0, { base := some 3 })] }
+
+theorem exVEnv₁_wf : Refine.EnvWF exVEnv₁ := Refine.EnvWF_of_checks _ (by decide) (by decide) (fun _ _ _ => rfl)
+theorem exVEnv₂_wf : Refine.EnvWF exVEnv₂ := Refine.EnvWF_of_checks _ (by decide) (by decide) (fun _ _ _ => rfl)
+
+theorem exVEnvSim : EnvSim (fun a b => exR a b = true) (Refine.specEnvOf exVEnv₁) (Refine.specEnvOf exVEnv₂) := by
+  refine TablesSim.toEnvSim ⟨?_, ?_, ?_, ?_, ?_⟩ rfl rfl exEnvSim.node
+  · intro a b h
+    rcases exR_cases h with ⟨rfl, rfl⟩ | ⟨rfl, rfl⟩ | ⟨rfl, rfl⟩
+    · show exR 2 0 = true
+      decide
+    · trivial
+    · trivial
+  · intro a b h
+    rcases exR_cases h with ⟨rfl, rfl⟩ | ⟨rfl, rfl⟩ | ⟨rfl, rfl⟩
+    · show exR 2 0 = true
+      decide
+    · trivial
+    · trivial
+  · intro a b h
+    rcases exR_cases h with ⟨rfl, rfl⟩ | ⟨rfl, rfl⟩ | ⟨rfl, rfl⟩ <;> rfl
+  · intro a b h
+    rcases exR_cases h with ⟨rfl, rfl⟩ | ⟨rfl, rfl⟩ | ⟨rfl, rfl⟩ <;> exact (by decide : exR 0 3 = true)
+  · intro r₁ r₂ name h
+    rcases exR_cases h with ⟨rfl, rfl⟩ | ⟨rfl, rfl⟩ | ⟨rfl, rfl⟩
+    · show OptRel _ (match Json.lookup name [("d", (⟨2, true⟩ : Go.AnchorInfo))] with
+          | some a => if a.dynamic then some a.schema else none
+          | none => none)
+        (match Json.lookup name [("d", (⟨0, true⟩ : Go.AnchorInfo))] with
+          | some a => if a.dynamic then some a.schema else none
+          | none => none)
+      simp only [Json.lookup_cons, Json.lookup_nil]
+      by_cases hn : "d" = name
+      · rw [if_pos hn, if_pos hn]
+        show exR 2 0 = true
+        decide
+      · rw [if_neg hn, if_neg hn]
+        trivial
+    · trivial
+    · trivial
+
+/-- `validate_iso` applied: one Spec result governs the evaluator on both copies -/
+example (fuel : Nat) (j : Json) (hj : Json.WF j = true) :
+    Refine.Rel j (Spec.evalFuel (Refine.specEnvOf exVEnv₁) fuel [] 0 j)
+        (Go.validateFuel exVEnv₁ fuel [] (GoVal.ofJson j) 0) ∧
+      Refine.Rel j (Spec.evalFuel (Refine.specEnvOf exVEnv₁) fuel [] 0 j)
+        (Go.validateFuel exVEnv₂ fuel [] (GoVal.ofJson j) 3) :=
+  validate_iso exVEnv₁ exVEnv₂ exVEnv₁_wf exVEnv₂_wf (Refine.StoreWF_of_check _ (by decide))
+    (Refine.StoreWF_of_check _ (by decide)) exVEnvSim fuel .nil (fun _ h => nomatch h) (fun _ h => nomatch h)
+    (by decide) j hj
+
+example : Spec.valid (Refine.specEnvOf exVEnv₁) 3 0 (.obj [("a", .str "x")]) = some true := by decide
+example : (Go.validateFuel exVEnv₂ 3 [] (GoVal.ofJson (.obj [("a", .str "x")])) 3).isOk = true := by decide
+example : (Go.validateFuel exVEnv₂ 3 [] (GoVal.ofJson (.obj [("a", .num 1)])) 3).isOk = false := by decide
 
 end Iso
 end JSV
